@@ -352,6 +352,71 @@ func runC20(r *Result, thorough bool) {
 		}
 	}
 	r.Compare(c)
+	c20SlowApp(r, rng)
+}
+
+// slowHandler: an application whose first answers are slower than the proxy's timeout
+type slowHandler struct {
+	recHandler
+	slowFirst int
+	delay     time.Duration
+	byIndex   map[int]proxy.CommitResponse
+	lock      sync.Mutex
+}
+
+func (h *slowHandler) CommitHandler(b hg.Block) (proxy.CommitResponse, error) {
+	h.lock.Lock()
+	slow := h.slowFirst > 0
+	if slow {
+		h.slowFirst--
+	}
+	h.lock.Unlock()
+	if slow {
+		time.Sleep(h.delay)
+	}
+	resp, err := h.recHandler.CommitHandler(b)
+	h.lock.Lock()
+	h.byIndex[b.Index()] = resp
+	h.lock.Unlock()
+	return resp, err
+}
+
+// c20SlowApp: an application that answers one call slower than the timeout (the proxy abandons the
+// call, reconnects and retries), then normally: every call must return an error or exactly what the
+// application returned for that block — never an empty success, never another call's answer.
+func c20SlowApp(r *Result, rng *rand.Rand) {
+	for round := 0; round < 2; round++ {
+		timeout := 250 * time.Millisecond
+		h := &slowHandler{recHandler: recHandler{snapshots: map[int][]byte{}, rng: rand.New(rand.NewSource(r.Seed + 7))},
+			slowFirst: 1 + round, delay: 3 * timeout, byIndex: map[int]proxy.CommitResponse{}}
+		appAddr, babbleAddr := freePort(), freePort()
+		ap, err := aproxy.NewSocketAppProxy(appAddr, babbleAddr, timeout, quiet())
+		if err != nil {
+			r.Inc("slow_app_setup_failed", 1)
+			return
+		}
+		if _, err := bproxy.NewSocketBabbleProxy(babbleAddr, appAddr, h, timeout, quiet()); err != nil {
+			r.Inc("slow_app_setup_failed", 1)
+			return
+		}
+		for k := 0; k < 5; k++ {
+			blk := randomBlock(rng, 1000*(round+1)+k)
+			resp, err := ap.CommitBlock(blk)
+			time.Sleep(10 * time.Millisecond)
+			r.Inc("slow_app_calls", 1)
+			if err != nil {
+				r.Inc("slow_app_call_errors", 1)
+				continue
+			}
+			h.lock.Lock()
+			want, ok := h.byIndex[blk.Index()]
+			h.lock.Unlock()
+			if len(resp.StateHash) == 0 || !ok || !bytes.Equal(resp.StateHash, want.StateHash) {
+				r.Violate("impl-violation", fmt.Sprintf("slow application (call %d): CommitBlock returned success with state hash %x, the application returned %x for that block (answered: %v)", k, resp.StateHash, want.StateHash, ok),
+					"slow-app-wrong-answer", map[string]int{"call": k, "slow_first": 1 + round})
+			}
+		}
+	}
 }
 
 func joinComma2(l []string) string {
